@@ -179,7 +179,8 @@ class Program(object):
         """
         lines = []
         for symbol, value in self.symbol_table.items():
-            lines.append("${} {}".format(value.hex().ljust(4, ' '), symbol))
+            hex_value = "{:04X}".format(-value.int & 0xFFFF) if value.is_negative() else value.hex()
+            lines.append("${} {}".format(hex_value.ljust(4, ' '), symbol))
         return lines
 
     def get_statements(self):
